@@ -141,7 +141,11 @@ func (c *Ctx) term(v ssa.Value, d int) string {
 	case *ssa.UnOp:
 		switch x.Op {
 		case token.MUL:
-			// load: for a local alloc with a unique reaching store in the same block use the stored value
+			if ia, ok := x.X.(*ssa.IndexAddr); ok {
+				if _, isConst := ia.Index.(*ssa.Const); isConst {
+					return c.term(ia.X, d+1) + "[" + c.term(ia.Index, d+1) + "]"
+				}
+			}
 			return c.addrPath(x.X, d+1)
 		case token.NOT:
 			return "!" + c.term(x.X, d+1)
